@@ -342,9 +342,11 @@ impl Context {
         // as well. Otherwise, a value that is kept in an older file comes back once the
         // tombstone that deleted it is gone.
         if let Some(&max_fileid) = fileids.iter().next_back() {
-            for entry in self.stats.iter() {
-                if *entry.key() < max_fileid {
-                    fileids.insert(*entry.key());
+            // Go through the directory since a file can hold entries that were never accounted
+            // for, e.g., when an entry was appended but the write failed afterwards
+            for fileid in utils::sorted_fileids(&path)? {
+                if fileid < max_fileid {
+                    fileids.insert(fileid);
                 }
             }
         }
